@@ -239,7 +239,11 @@ async fn run_ref_scenario(sc: &Value, rng: &mut Rng, ref_is_server: bool) -> Val
     let rsock = tokio::net::UdpSocket::bind("127.0.0.1:0").await.expect("bind");
     let raddr = rsock.local_addr().unwrap();
     rsock.connect(if ref_is_server { proxy.s_side_addr } else { proxy.c_side_addr }).await.expect("connect");
-    let rcfg = ref_config(ref_cert, tick as u64);
+    let mut rcfg = ref_config(ref_cert, tick as u64);
+    if sc["ref_client_auth"].as_bool().unwrap_or(false) {
+        // the WebRTC configuration of a DTLS server: the client must present a certificate
+        rcfg.client_auth = ::dtls::config::ClientAuthType::RequireAnyClientCert;
+    }
 
     let (label, is_client) = if ref_is_server { ("C", true) } else { ("S", false) };
     let exp = if ref_is_server { expected_fp(sc["fpC"].as_str().unwrap_or("match"), &as_rustrtc, &cert_x, rng) } else { None };
